@@ -38,6 +38,7 @@ THEOREMS = [
     "Ural.Normpath.resolvePath_eq",
     "Ural.Normpath.segView_render",
     "Ural.Props.C01.canon_no_new_delimiter",
+    "Ural.Props.C01.canon_userinfo_no_nfkc_delim",
     "Ural.Props.C01.canon_quoted_no_delimiter",
     "Ural.Canonicalize.canonHost_idem",
     "Ural.Canonicalize.punyLaws_id",
